@@ -478,6 +478,79 @@ def parse_select(v):
     return out
 
 
+def _ht_class(h):
+    acp, mask = CONSTS.get("ANYONECANPAY", 0x80), CONSTS.get("MASK", 0x1f)
+    return ("ACP" if h & acp else "acp") + "+" + {CONSTS.get("SINGLE", 3): "SINGLE",
+                                                   CONSTS.get("NONE", 2): "NONE"}.get(h & mask, "ALL")
+
+
+def choice_mismatch(got, want):
+    """None when the two guarded choices {(tests..): value} select the same value at every point of the
+    finite domain their tests range over (hash type 0..255, the truth of every other test, the variant
+    of every matched enum); otherwise a description of the first point where they differ. Comparing by
+    evaluation makes the shape of the tests irrelevant (nested ifs, match guards, negated tests)."""
+    import itertools
+    bools, variants = set(), {}
+
+    def atoms(d, who):
+        for key in d:
+            for g in key:
+                if g.startswith("hash_type in "):
+                    continue
+                m = re.match(r"^(variant\(.*\))==(\w+)$", g)
+                if m:
+                    variants.setdefault(m.group(1), {"got": set(), "want": set()})[who].add(m.group(2))
+                else:
+                    bools.add(g[1:] if g.startswith("!") else g)
+    atoms(got, "got")
+    atoms(want, "want")
+    vdom = {}
+    for x, d in variants.items():
+        vals = {v for v in d["got"] | d["want"] if v != "else"}
+        if "else" in d["got"] or not d["got"]:
+            vals.add("other")
+        vdom[x] = sorted(vals)
+    bools = sorted(bools)
+    if len(bools) > 8:
+        return "too many distinct tests to compare (%d)" % len(bools)
+
+    def holds(g, h, bv, vv, explicit):
+        if g.startswith("hash_type in {"):
+            return _ht_class(h) in [x.strip() for x in g[len("hash_type in {"):-1].split(",")]
+        if g.startswith("hash_type in ["):
+            return h in [int(x) for x in re.findall(r"\d+", g)]
+        m = re.match(r"^(variant\(.*\))==(\w+)$", g)
+        if m:
+            if m.group(2) == "else":
+                return vv[m.group(1)] not in explicit.get(m.group(1), set())
+            return vv[m.group(1)] == m.group(2)
+        if g.startswith("!"):
+            return not bv[g[1:]]
+        return bv[g]
+    exp_g = {x: {v for v in d["got"] if v != "else"} for x, d in variants.items()}
+    exp_w = {x: {v for v in d["want"] if v != "else"} for x, d in variants.items()}
+    reps = {}
+    for h in range(256):
+        reps.setdefault(_ht_class(h), h)
+    uses_numeric = any(g.startswith("hash_type in [") for d in (got, want) for k in d for g in k)
+    hts = range(256) if uses_numeric else sorted(reps.values())
+    for h in hts:
+        for bvals in itertools.product((False, True), repeat=len(bools)):
+            bv = dict(zip(bools, bvals))
+            for vvals in itertools.product(*[vdom[x] for x in sorted(vdom)]):
+                vv = dict(zip(sorted(vdom), vvals))
+                w_ = {v for k, v in want.items() if all(holds(g, h, bv, vv, exp_w) for g in k)}
+                g_ = {v for k, v in got.items() if all(holds(g, h, bv, vv, exp_g) for g in k)}
+                if len(w_) != 1:
+                    continue        # a point the table does not decide (infeasible combination)
+                if g_ != w_:
+                    pt = ["hash_type=%s" % _ht_class(h)] + ["%s=%s" % kv for kv in bv.items()] + \
+                         ["%s=%s" % kv for kv in vv.items()]
+                    return "at %s the code takes %s, the table prescribes %s" % (", ".join(pt), sorted(g_) or "nothing",
+                                                                                sorted(w_))
+    return None
+
+
 def norm_value(v):
     """Hash?#4.unwrap_or_else(..) -> Hash?#4|empty (the substitute is checked separately)"""
     v = re.sub(r"^(Hash\?#\d)\.unwrap_or_else\(.*\)$", r"\1|empty", v)
@@ -522,9 +595,10 @@ def compare(chk, rule, key, got, want, m=None):
             if isinstance(wv, dict):
                 sel = parse_select(gv)
                 wv = {ht_canon(k): v for k, v in wv.items()}
-                if sel != wv:
+                mis = "not a choice" if sel is None else (None if sel == wv else choice_mismatch(sel, wv))
+                if mis:
                     ok_all = False
-                    why = why or "value %d is %s, the table has the choice %s" % (i + 1, gv[:200], wv)
+                    why = why or "value %d is %s, the table has the choice %s: %s" % (i + 1, gv[:200], wv, mis)
             elif wg == ("!ANY",):
                 if gv != wv or not (gg or (m is not None and skipped_when_all_empty(m, wv))):
                     ok_all = False
